@@ -249,42 +249,39 @@ def r4_expression_grammar(ctx) -> None:
     r.rule("C13.R4", "condition-expression grammar: operators are Keywords with the identifier alphabet as word characters; levels (not,1,RIGHT,ConditionNOT),(and,2,LEFT,ConditionAND),(or,2,LEFT,ConditionOR); binary parse action folds every second token to the left; NOT takes the token after the operator; parse_all=True")
     f = prog.func(CE + ".parse_condition_expression")
     m = f.module
-    local = {}
-    for n in walk_no_nested(f.node):
-        if isinstance(n, ast.Assign) and isinstance(n.targets[0], ast.Name):
-            local[n.targets[0].id] = n.value
-    ident = local.get("identifier")
-    while isinstance(ident, ast.Name):
-        ident = local.get(ident.id)
-    if not (isinstance(ident, ast.Call) and call_name(ident).endswith("Word")):
+    # the function body interpreted over the abstract pyparsing model (sa.grammar): the grammar it builds, as data
+    from ..grammar import G, interpret_statements
+    env, skipped = interpret_statements(prog, m, f.node.body, extra={p: "x" for p in f.params()})
+    infix = []
+    for v in list(env.values()):
+        if isinstance(v, G):
+            for g in v.walk():
+                if g.kind == "infix" and all(g is not x for x in infix):
+                    infix.append(g)
+    if len(infix) != 1:
+        raise AnalysisError(f"{f.qual}: infix_notation grammar not found ({len(infix)} built; skipped: {skipped})")
+    gr = infix[0]
+    if gr.operand.kind != "Word":
         raise AnalysisError(f"{f.qual}: identifier is not Word(...)")
-    arg = ident.args[0]
-    while isinstance(arg, ast.Name) and arg.id in local:
-        arg = local[arg.id]
-    alpha = const_eval(prog, m, arg)
-    before = dict(r.rule_counts)
-    c02.grammar_operator_check(ctx, "C13.R4", m, f.node, alpha, f.qual, local_assigns=local)
-    call = next((x for x in ast.walk(f.node) if isinstance(x, ast.Call) and call_name(x).split(".")[-1] == "infix_notation"), None)
-    if call is None:
-        raise AnalysisError(f"{f.qual}: infix_notation not found")
-    got = []
-    for lvl in call.args[1].elts:  # type: ignore[attr-defined]
-        op = lvl.elts[0]
-        while isinstance(op, ast.Name) and op.id in local:
-            op = local[op.id]
-        tok = op.value if isinstance(op, ast.Constant) else (const_eval(prog, m, op.args[0]) if isinstance(op, ast.Call) and op.args else None)
-        got.append((tok, const_eval(prog, m, lvl.elts[1]), unparse(lvl.elts[2]).split(".")[-1], unparse(lvl.elts[3])))
+    alpha = gr.operand.alphabet
+    loc = f.loc
+    for op, arity, assoc, action in gr.levels:
+        c02.check_operator_element(r, "C13.R4", f.qual, op, alpha, loc)
+    got = [(getattr(op, "match", None), arity, assoc, str(action)) for op, arity, assoc, action in gr.levels]
     want = [("not", 1, "RIGHT", "ConditionNOT.from_parsed"), ("and", 2, "LEFT", "ConditionAND.from_parsed"), ("or", 2, "LEFT", "ConditionOR.from_parsed")]
-    loc = f"{m.relpath}:{call.lineno}"
     if got == want:
         r.ok("C13.R4", f.qual, f"levels {got}", loc)
     else:
         r.violation("C13.R4", f.qual, f"levels {got}", f"expected {want}", loc)
-    ps = [c for c in walk_no_nested(f.node) if isinstance(c, ast.Call) and call_name(c).endswith(("parseString", "parse_string"))]
-    if len(ps) == 1 and any(kw.arg in ("parse_all", "parseAll") and isinstance(kw.value, ast.Constant) and kw.value.value is True for kw in ps[0].keywords):
-        r.ok("C13.R4", f.qual, "parse_all=True", f"{m.relpath}:{ps[0].lineno}")
+    if str(gr.operand.action) == "ConditionIdentifier.from_parsed":
+        r.ok("C13.R4", f.qual, "identifier parse action ConditionIdentifier.from_parsed", loc)
     else:
-        r.violation("C13.R4", f.qual, short(ps[0]) if ps else "parse call", "the whole expression must be consumed", f.loc)
+        r.violation("C13.R4", f.qual, f"identifier parse action {gr.operand.action}", "expected ConditionIdentifier.from_parsed", loc)
+    calls = getattr(gr, "parse_calls", [])
+    if calls and all(calls):
+        r.ok("C13.R4", f.qual, "parse_all=True", loc)
+    else:
+        r.violation("C13.R4", f.qual, f"parse call(s) with parse_all={calls}", "the whole expression must be consumed", f.loc)
     b = prog.func(CE + ".BinaryConditionOp.from_parsed")
     src = unparse(b.node)
     if "operands = t[0][0::2]" in src and "result = cls(l, operands[0], operands[1])" in src and "for operand in operands[2:]:" in src and "result = cls(l, result, operand)" in src:
